@@ -81,11 +81,11 @@ def known_match(known, prop, signature):
 REQUIRED_PROBES = {
     "C16": ["nary_pattern_evaluated", "axle_constructed"],
     "C17": ["last_handle_dropped"],
-    "C15": ["set_rejected", "set_rejected_while_following", "set_time_after_clock_moved", "update_while_following", "adapter_get", "motion_profile_adapter_get", "call_on_ticking_clock", "history_touches_shared_clock"],
+    "C15": ["set_rejected", "set_rejected_while_following", "set_time_after_clock_moved", "update_while_following", "adapter_get", "motion_profile_adapter_get", "call_on_ticking_clock", "history_touches_shared_clock", "adapter_call_while_caller_views_clock"],
     "C02": ["two_different_errors", "nary_leading_absent", "equivalence_checked", "noncommutative_payload_combined", "read_while_inputs_borrowed"],
     "C08": ["both_sides_present", "one_sided", "axle_partial_presence", "diff_equal_all_present", "diff_waits_for_data",
             "teeth_ratio_observed"],
-    "C09": ["reconnect_same_pair", "connect_steals_both", "connect_steals_one", "disconnect_unlinked", "link_op_refused_by_live_borrow", "read_through_own_mutable_guard"],
+    "C09": ["reconnect_same_pair", "connect_steals_both", "connect_steals_one", "disconnect_unlinked", "link_op_refused_by_live_borrow", "read_through_own_mutable_guard", "write_while_partner_mutably_borrowed"],
     "C13": ["relay_competing_commands", "newest_not_at_side1", "relayed_two_hops", "device_pulls_followed_command"],
     "C20": ["actuator_sees_nothing", "pid_wrapper_fed", "pid_wrapper_drives_motor", "inner_writes_terminal_from_update"],
     "C04": ["time_shift_twin", "scaling_twin", "present_after_reset", "recovery_checked", "composed_twin"],
@@ -397,20 +397,22 @@ def sim_batch(prop, tier, seed, world):
     # default (default features, optimised, no debug assertions, no overflow or dimension checks):
     # code that only exists, or only disappears, in that configuration (a side effect inside a
     # debug_assert!, an assertion that only fires where checks are off) shows under the same oracles
-    extra = None
-    vbin = variant_binary(SHIPPED)
-    if vbin and not os.environ.get("VERIF_NO_SHIPPED"):
-        n = None if tier == "quick" else max(int(c["res"]["runs"]) // 4, 1)
-        c2 = sim_collect(prop, tier, seed, binary=vbin, tag="-shipped", nruns=n,
-                         note="found by the simulator built against rrtk's shipped configuration: replay with "
-                              "/verif/target/variants/%s/release/rrtk-sim-%s replay <this file>" % (SHIPPED, SHIPPED))
+    extra = {}
+    for build, tag, what, div in EXTRA_PASSES:
+        vbin = variant_binary(build)
+        if not vbin or os.environ.get("VERIF_NO_SHIPPED"):
+            continue
+        n = None if tier == "quick" else max(int(c["res"]["runs"]) // div, 1)
+        c2 = sim_collect(prop, tier, seed, binary=vbin, tag=tag, nruns=n,
+                         note="found by the simulator built against rrtk as %s: replay with "
+                              "/verif/target/variants/%s/release/rrtk-sim-%s replay <this file>" % (what, build, build))
         lines += c2["lines"]
         violations += c2["violations"]
         known_hits += [k for k in c2["known_hits"] if k not in known_hits]
-        extra = {"shipped_configuration_pass": {
-            "build": "variants/%s (default features, release profile, rrtk compiled without debug assertions)" % SHIPPED,
+        extra[tag.strip("-") + "_configuration_pass"] = {
+            "build": "variants/%s (%s)" % (build, what),
             "evaluations": c2["res"]["runs"], "distinct_nontrivial": c2["res"]["distinct_nontrivial"],
-            "failing_runs": c2["res"]["failing_runs"], "trace_digest": c2["res"]["trace_xor"] + c2["res"]["trace_sum"]}}
+            "failing_runs": c2["res"]["failing_runs"], "trace_digest": c2["res"]["trace_xor"] + c2["res"]["trace_sum"]}
     wall = time.time() - t0
     write_evidence(prop, tier, seed, world, c["res"], violations, known_hits, wall, extra)
     finish(prop, tier, seed, lines, violations, len(known_hits), c["res"]["runs"],
@@ -814,7 +816,7 @@ def check_c16(tier, seed):
 
 # ---------------------------------------------------------------- C19: feature configurations
 
-VARIANTS = ["std_nodim", "stdrelease_nodim", "stddebug_dim", "stdmicromath_dim", "stdlibm_dim", "libm_dim", "libm_nodim", "libm_micromath_dim", "micromath_dim", "micromath_nodim"]
+VARIANTS = ["std_nodim", "stdrelease_nodim", "stddebug_dim", "stdmicromath_dim", "stdlibm_dim", "stdrelease_dim", "libm_dim", "libm_nodim", "libm_micromath_dim", "micromath_dim", "micromath_nodim"]
 import re as _re
 _VAL = _re.compile(r"[0-9a-f]{8}")
 
@@ -987,11 +989,11 @@ def check_c19(tier, seed, only_run=None, only_mode=None, only_build=None):
             "trace_lines_compared": ops_compared,
             "runs_per_hour": int(compared / max(wall, 1e-6) * 3600),
             "exemptions": "values of runs containing an EWMA or exponent node: libm within 1e-4 of the run's value scale, micromath category+timestamp only",
-            "components": {"real": ["every rrtk type reached by the node, comb, device and settable worlds, in eleven build configurations"],
+            "components": {"real": ["every rrtk type reached by the node, comb, device and settable worlds, in twelve build configurations"],
                            "stub": ["leaf sensors, clocks, motors, reference build as oracle"]},
             "exhaustive": False,
         },
-        "assumptions": ["the std + dim_check_release build is the reference; agreement of all eleven builds is what is checked (beyond the 3 x 2 grid: the crate's default features with the rrtk package compiled without / with debug assertions, std together with micromath / with libm, where std's functions must win, and libm together with micromath without std, where libm's must)",
+        "assumptions": ["the std + dim_check_release build is the reference; agreement of all twelve builds is what is checked (beyond the 3 x 2 grid: the crate's default features with the rrtk package compiled without / with debug assertions, std together with micromath / with libm, where std's functions must win, and libm together with micromath without std, where libm's must; and std + dim_check_release compiled without debug assertions, where unit checking is on although debug assertions are off)",
                         "plan generation is build-independent (no float-library calls on the generation path that differ between builds)"] + ASSUMPTIONS[3:],
         "wall_s": round(wall, 3),
         "violations": violations,
@@ -1001,6 +1003,12 @@ def check_c19(tier, seed, only_run=None, only_mode=None, only_build=None):
 
 
 SHIPPED = "stdrelease_nodim"
+# every simulator property runs its batch again through simulators linked against rrtk in three more configurations
+EXTRA_PASSES = [
+    (SHIPPED, "-shipped", "cargo build --release ships it by default (default features, no debug assertions, no overflow or dimension checks)", 4),
+    ("stdrelease_dim", "-release-checked", "a release build with unit checking kept on (std + dim_check_release, no debug assertions)", 8),
+    ("libm_dim", "-nostd-libm", "a no_std build (alloc + libm + dim_check_release)", 8),
+]
 
 
 def variant_binary(name):
